@@ -694,6 +694,12 @@ def check_layout(ctx, base, safe, j, stubs, outside, parsed, files):
                                {**base, "path": path, "announced": sf.pymodule})
         if not fname.endswith(".sdsstub") or fname.startswith("_"):
             ctx.oracle_failure("C10", f"stub file name {fname!r}", {**base, "path": path})
+    # the base name is the module / re-exported declaration name without LEADING underscores
+    for st in stubs:
+        want = stub_path(st)
+        if want not in files:
+            ctx.oracle_failure("C10", f"stub for {st['name']!r} is not at {want!r}", {**base, "name": st["name"], "expected_path": want,
+                                                                                  "written": sorted(files)[:8]})
     # two different texts for one path
     seen = {}
     for s in stubs:
@@ -702,7 +708,9 @@ def check_layout(ctx, base, safe, j, stubs, outside, parsed, files):
             d = d[:-1]
         p = "/".join(d + [s["name"].lstrip("_") + ".sdsstub"])
         if p in seen and seen[p] != s["text"]:
-            ctx.oracle_failure("C10", f"two different stub texts written to {p!r}", {**base, "path": p, "names": [s["name"]]})
+            aliased = any(q["alias"] for kv in j["reexport_map"] for m in kv["modules"] for q in m["qualified_imports"])
+            ctx.oracle_failure("C10", f"two different stub texts written to {p!r}",
+                               {**base, "path": p, "names": [s["name"]], "aliased_reexport": aliased})
         seen[p] = s["text"]
     for cls in outside:
         parts = cls.split(".")
